@@ -89,6 +89,12 @@ def out_kind(node: ast.expr) -> str:
     if isinstance(node, ast.Lambda):
         arg = lambda_arg(node)
         b = node.body
+        # lambda i: str(int(i))
+        if (isinstance(b, ast.Call) and isinstance(b.func, ast.Name) and b.func.id == "str" and len(b.args) == 1
+                and not b.keywords and isinstance(b.args[0], ast.Call) and isinstance(b.args[0].func, ast.Name)
+                and b.args[0].func.id == "int" and len(b.args[0].args) == 1 and not b.args[0].keywords
+                and isinstance(b.args[0].args[0], ast.Name) and b.args[0].args[0].id == arg):
+            return ".strInt"
         if isinstance(b, ast.IfExp) and isinstance(b.test, ast.Name) and b.test.id == arg:
             return f"(.ifElse {chars(const_str(b.body))} {chars(const_str(b.orelse))})"
         if (isinstance(b, ast.Call) and isinstance(b.func, ast.Attribute) and b.func.attr == "isoformat"
